@@ -1,0 +1,11 @@
+//go:build verif
+
+package kademlia
+
+// VerifStop releases the background goroutines (blocker workers, broadcast context) of a Kad
+// that was constructed with New but never Start()ed.  Close() cannot be used for that: it
+// waits for the manage loop's `done` channel, which only a started Kad ever closes.
+func (k *Kad) VerifStop() {
+	k.bgBroadcastCancel()
+	_ = k.blocker.Close()
+}
